@@ -26,3 +26,12 @@ Proof.
     + apply in_flat_map in Hi as [p [_ Hp]]. destruct (snd p); try (destruct Hp; fail). destruct Hp as [<-|[]]. reflexivity.
     + apply in_flat_map in Hi as [p [_ Hp]]. destruct (snd p); try (destruct Hp; fail). destruct Hp as [<-|[]]. cbn. discriminate.
 Qed.
+
+(* a guarded toy history meets the property at every file (instance of the guarded theorem) *)
+From Coq Require Import Permutation.
+From LH Require Import Proofs.EventsInv.
+Definition toy_meets (fx : fixes) (dk : amap (list stmt)) (h : list (action toyA)) : Prop :=
+  guard toyA fx dk h = true /\
+  forall f, Permutation (view (snd (run toyA fx dk h)) f) (demanded toyA fx (fst (run toyA fx dk h)) f).
+Lemma toy_meets_of_guard fx dk h : guard toyA fx dk h = true -> toy_meets fx dk h.
+Proof. intros H. split; [exact H|]. apply (guarded_view toyA fx toy_ok dk h H). Qed.
